@@ -11,6 +11,13 @@ import translate
 from translate import Unavailable
 
 
+MI = "causationentropy/core/information/mutual_information.py"
+CMI = "causationentropy/core/information/conditional_mutual_information.py"
+ENT = "causationentropy/core/information/entropy.py"
+LINALG = "causationentropy/core/linalg.py"
+STATS = "causationentropy/core/stats.py"
+
+
 class _Subst(ast.NodeTransformer):
     def __init__(self, env):
         self.env = env
@@ -25,7 +32,85 @@ def _subst(expr, env):
     return _Subst(env).visit(copy.deepcopy(expr))
 
 
-def _block(stmts, env, cond, out, anchor):
+REGISTRY = {}      # function name -> (FunctionDef, module path) for the package modules the anchors live in
+
+
+def _registry():
+    if not REGISTRY:
+        for rel in (MI, CMI, ENT, LINALG, STATS):
+            try:
+                tree = translate.parse(rel)
+            except (FileNotFoundError, SyntaxError):
+                continue
+            for n in tree.body:
+                if isinstance(n, ast.FunctionDef):
+                    REGISTRY.setdefault(n.name, (n, rel))
+    return REGISTRY
+
+
+def _bind(fdef, call):
+    """parameter name -> argument expression of an internal call (None if it cannot be read)"""
+    a = fdef.args
+    if a.vararg or a.kwarg or a.posonlyargs or a.kwonlyargs:
+        return None
+    if any(isinstance(x, ast.Starred) for x in call.args) or any(k.arg is None for k in call.keywords):
+        return None
+    names = [x.arg for x in a.args]
+    if len(call.args) > len(names):
+        return None
+    b = dict(zip(names, call.args))
+    for k in call.keywords:
+        if k.arg not in names or k.arg in b:
+            return None
+        b[k.arg] = k.value
+    defaults = dict(zip(names[len(names) - len(a.defaults):], a.defaults))
+    for nme in names:
+        if nme not in b:
+            if nme not in defaults:
+                return None
+            b[nme] = defaults[nme]
+    return [(nme, b[nme]) for nme in names]
+
+
+class _Canon(ast.NodeTransformer):
+    """behaviour-preserving spellings are given one form:  a + -b -> a - b;  E.sum(..)/E.mean(..) -> np.sum(E, ..)/np.mean(E, ..);
+    calls of package functions -> all arguments as keywords in signature order;  private straight-line helpers are inlined"""
+
+    def __init__(self, anchor, depth=0):
+        self.anchor, self.depth = anchor, depth
+
+    def visit_BinOp(self, node):
+        self.generic_visit(node)
+        if isinstance(node.op, ast.Add) and isinstance(node.right, ast.UnaryOp) and isinstance(node.right.op, ast.USub):
+            return ast.BinOp(left=node.left, op=ast.Sub(), right=node.right.operand)
+        return node
+
+    def visit_Call(self, node):
+        self.generic_visit(node)
+        f = node.func
+        if isinstance(f, ast.Attribute) and f.attr in ("sum", "mean") and not (isinstance(f.value, ast.Name) and f.value.id in ("np", "numpy")):
+            return ast.Call(func=ast.Attribute(value=ast.Name(id="np", ctx=ast.Load()), attr=f.attr, ctx=ast.Load()),
+                            args=[f.value] + node.args, keywords=node.keywords)
+        if isinstance(f, ast.Name) and f.id in _registry():
+            fdef, rel = _registry()[f.id]
+            b = _bind(fdef, node)
+            if b is None:
+                return node
+            if f.id.startswith("_") and self.depth < 3:          # private helper: inline its single straight-line return
+                out = []
+                LOCALS[f.id] = {t.id for n in ast.walk(fdef) if isinstance(n, ast.Assign) for t in n.targets if isinstance(t, ast.Name)}
+                try:
+                    ok = _block(fdef.body, {k: v for k, v in b}, [], out, f.id, raw=True)
+                except Unavailable:
+                    ok = False
+                if ok and len(out) == 1 and out[0][0] == "always":
+                    return _Canon(self.anchor, self.depth + 1).visit(out[0][1])
+                return node
+            return ast.Call(func=f, args=[], keywords=[ast.keyword(arg=k, value=v) for k, v in b])
+        return node
+
+
+def _block(stmts, env, cond, out, anchor, raw=False):
     """returns True when every path through `stmts` returns"""
     for i, st in enumerate(stmts):
         if isinstance(st, ast.Expr) and isinstance(st.value, ast.Constant) and isinstance(st.value.value, str):
@@ -42,16 +127,20 @@ def _block(stmts, env, cond, out, anchor):
             if st.value is None:
                 raise Unavailable(f"{anchor}: bare return")
             val = _subst(st.value, env)
-            loose = sorted({n.id for n in ast.walk(val) if isinstance(n, ast.Name)} & LOCALS[anchor])
+            loose = sorted({n.id for n in ast.walk(val) if isinstance(n, ast.Name)} & (LOCALS[anchor] - set(env)))
             if loose:
                 raise Unavailable(f"{anchor}: returned expression uses unresolved locals {loose}")
-            out.append((" and ".join(cond) or "always", ast.unparse(val).replace(" ", "")))
+            if raw:
+                out.append((" and ".join(cond) or "always", val))
+            else:
+                val = ast.fix_missing_locations(_Canon(anchor).visit(val))
+                out.append((" and ".join(cond) or "always", ast.unparse(val).replace(" ", "")))
             return True
         if isinstance(st, ast.If):
             test = ast.unparse(_subst(st.test, env)).replace(" ", "")
             e1, e2 = dict(env), dict(env)
-            r1 = _block(st.body, e1, cond + [test], out, anchor)
-            r2 = _block(st.orelse, e2, cond + [f"not({test})"], out, anchor) if st.orelse else False
+            r1 = _block(st.body, e1, cond + [test], out, anchor, raw)
+            r2 = _block(st.orelse, e2, cond + [f"not({test})"], out, anchor, raw) if st.orelse else False
             if r1 and r2:
                 return True
             if r1:
@@ -78,6 +167,7 @@ LOCALS = {}
 
 
 def inlined_returns(rel, name):
+    REGISTRY.clear()
     f = translate.func(translate.parse(rel), name)
     LOCALS[name] = {t.id for n in ast.walk(f) if isinstance(n, ast.Assign) for t in n.targets if isinstance(t, ast.Name)}
     params = [a.arg for a in f.args.args]
@@ -89,9 +179,6 @@ def inlined_returns(rel, name):
     return [(f"{name}.signature", sig)] + [(f"{name}.assert" if c == "assert" else f"{name}.return[{c}]", e) for c, e in out]
 
 
-MI = "causationentropy/core/information/mutual_information.py"
-CMI = "causationentropy/core/information/conditional_mutual_information.py"
-ENT = "causationentropy/core/information/entropy.py"
 
 
 def estimator_facts():
@@ -113,9 +200,6 @@ def coq_facts(facts, module="Model.EstimatorSource", table="modelled_source"):
 
 def coq_estimator_facts(facts):
     return coq_facts(facts)
-
-
-STATS = "causationentropy/core/stats.py"
 
 
 def stats_facts():
